@@ -6,6 +6,7 @@ import OmbottModel.Gen.Forms
 import OmbottModel.Model.Upload
 import OmbottModel.Lemmas.Upload
 import OmbottModel.Lemmas.UploadCopy
+import OmbottModel.Lemmas.UploadWindow
 /-!
 C07 — Multipart forms and uploads round-trip exactly.
 Property theorems only; helper lemmas live in `Lemmas/Forms*.lean`.
@@ -462,6 +463,18 @@ theorem proxy_window_safe (body : Bytes) (sp : Bool) (st en : Nat) (hse : st ≤
   have hinv : PInv st en ⟨Proxy.new st en, false⟩ := ⟨rfl, rfl, by simp [Proxy.new], by simp [Proxy.new]; omega⟩
   exact (runProxy_inv body sp st en hse ops _ hinv).2
 
+/-- **`proxy_window` (refinement half).**  A `BytesIOProxy(src, st, en)` over a window inside the buffered body
+(memory or spooled) behaves exactly like `io.BytesIO(src[st:en])`: for EVERY sequence of operations that both
+define alike (`AgreeSeq`: any `read` except `read(0)`, any `seek` with any `whence` — unknown ones raise on both
+sides — whose target is not beyond the end and, for `SEEK_SET`, not negative; `tell`, `isatty`, `seekable`,
+`readable`, `fileno`, `flush`) the two answer sequences are equal.  The documented differences are exactly the
+excluded operations: `read(0)` reads to the end of the window, a seek beyond the end clamps to the end, a
+negative `SEEK_SET` clamps to 0, `writable()` is `False`. -/
+theorem proxy_window (body : Bytes) (sp : Bool) (st en : Nat) (hse : st ≤ en) (h3 : en ≤ body.length)
+    (ops : List POp) (ha : AgreeSeq ⟨window body st en, 0⟩ ops) :
+    (runProxy body sp ⟨Proxy.new st en, false⟩ ops).1 = (runBio ⟨window body st en, 0⟩ ops).1 :=
+  run_sim body sp st en hse h3 ops _ _ ⟨by simp [Proxy.new], rfl, rfl, by simp⟩ ha
+
 /-- **`upload_roundtrip_save`.**  Composition with `parts_disjoint` / `form_roundtrip`: for every field list of the
 domain, the upload object that `_collect_multipart` builds for part `i` (window = the part's data range), saved to
 a file-like destination with any chunk size, delivers exactly the part's content, and is left at offset 0. -/
@@ -528,6 +541,14 @@ example : (match copySFile 2 ⟨[1, 2, 3, 4, 5], 1, [1, 0, 5]⟩ with
 example : (runProxy [1, 2, 3, 4, 5, 6] false ⟨Proxy.new 2 5, false⟩
     [.seek (-7) 2, .read (some (-1)), .seek 100 0, .read none, .seek (-2) 1, .seek 0 3, .read (some 0)]).1 =
     [.int 0, .bytes [3, 4, 5], .int 3, .bytes [], .int 1, .err (.py .valueError), .bytes [4, 5]] := by decide +kernel
+
+/-- `proxy_window`: a sequence of the common domain on the window `[2, 5)`, and the (equal) answers -/
+example : AgreeSeq ⟨window [1, 2, 3, 4, 5, 6] 2 5, 0⟩ [.read (some 2), .tell, .seek (-1) 1, .read none, .seek (-9) 2, .seek 0 7, .read (some (-1)), .fileno] ∧
+    (runBio ⟨window [1, 2, 3, 4, 5, 6] 2 5, 0⟩ [.read (some 2), .tell, .seek (-1) 1, .read none, .seek (-9) 2, .seek 0 7, .read (some (-1)), .fileno]).1 =
+      [.bytes [3, 4], .int 2, .int 1, .bytes [4, 5], .int 0, .err (.py .valueError), .bytes [3, 4, 5], .err (.other "OSError")] := by
+  refine ⟨?_, by decide +kernel⟩
+  simp only [AgreeSeq, Agree, bioOp, Bio.read, Bio.seek, window]
+  decide
 
 /-- `upload_roundtrip_save`: the hypotheses hold for part 1 of the example form of `form_roundtrip` -/
 example : (∀ f ∈ exFields, FieldOK f) ∧ exFields[1]? = some (.file cs!"u" cs!"q;z=1.txt" (some cs!"text/plain") [13, 10, 45, 45, 98, 32, 0, 255]) ∧
